@@ -20,7 +20,7 @@ TEXT = {
          "circuits, has/getAttr/tags, in incl. action hierarchy, is, == with strict restrictions, least upper bounds, literals, extension calls, "
          "per-request-environment driver with template linking and the impossible-policy rule). Soundness (`typeOf_sound`: value inhabits the static "
          "type or the error is entity/overflow/extension; capabilities hold when true, and unconditionally when typed True) is PROVED ONLY FOR THE "
-         "FRAGMENT named in Thm/C03.lean (`InFragment`: literals, variables, && || ! if, unary -, + - *, has/. on records and entities with "
+         "FRAGMENT named in Thm/C03.lean (`InFragment`: literals, variables, && || ! if, unary -, + - *, ==, like, is, has/. on records and entities with "
          "capabilities), with corollaries accepted => boolean or permitted error, typed False / impossible => never satisfied. The rest of the "
          "typechecker is covered by the differential run (model vs Typechecker::typecheck_by_request_env per policy, environment and mode) and by "
          "the implementation-level soundness search: every strict-accepted generated policy is evaluated on conformant requests/stores (Rust's own "
